@@ -7,7 +7,7 @@ from __future__ import annotations
 
 from crosshair.core import register_patch
 
-from .plugins import arith, bitops, fmtint
+from .plugins import arith, bitops, fmtint, fpexact
 
 STUBS_IN_FORCE: list[str] = []
 
@@ -17,6 +17,8 @@ def install_plugins(fmt=True):
     arith.install()
     STUBS_IN_FORCE.append("plugin:bitops (exact LIA encodings of | & ^ with solver-checked side conditions)")
     STUBS_IN_FORCE.append("plugin:arith (fork-free div/mod by positive constants)")
+    fpexact.install()
+    STUBS_IN_FORCE.append("plugin:fpexact (int(a / c) for |a/c| < 2**31, c < 2**20 as exact truncation; obligation solver-checked)")
     if fmt:
         fmtint.install()
         STUBS_IN_FORCE.append("plugin:fmtint (symbolic decimal rendering of ints: models CPython int.__format__)")
